@@ -24,6 +24,7 @@ func main() {
 	stride := flag.Int("stride", 1, "number of shards")
 	from := flag.Int("from", 0, "first case index to consider")
 	n := flag.Int("n", 0, "number of cases")
+	maxCases := flag.Int("max", 0, "stop after this many cases of the shard (the driver restarts the worker: bounded process lifetime)")
 	out := flag.String("out", "", "result stream file")
 	plan := flag.Bool("plan", false, "print the build plan and exit")
 	one := flag.Int("one", -1, "run a single case (replay)")
@@ -67,12 +68,22 @@ func main() {
 		c.RunCase(*one, func() { ck.Run(c, *one) }, frugal.VerifDrain)
 		return
 	}
+	done := 0
+	next := -1
 	for i := *from; i < *n; i++ {
 		if i%*stride != *shard {
 			continue
 		}
+		if *maxCases > 0 && done >= *maxCases {
+			next = i
+			break
+		}
 		i := i
 		c.RunCase(i, func() { ck.Run(c, i) }, frugal.VerifDrain)
+		done++
 	}
 	c.Finish(frugal.VerifCounters())
+	if next >= 0 {
+		c.Next(next)
+	}
 }
